@@ -143,9 +143,13 @@ def theorem_names(prop_id: str):
 SRC_TIE = {
     'C03': {'Block': ['Block1014.write', 'Block1014.finalise'], 'Reader': ['VbsReader.__next__'],
             'Writer': ['VbsWriter.write', 'VbsWriter.close', 'VbsWriter.__exit__'],
-            'RoundTrip': ['VbsWriter.write', 'VbsWriter.write_many', 'VbsWriter.close', 'VbsReader.__next__']},
+            'RoundTrip': ['VbsWriter.write', 'VbsWriter.write_many', 'VbsWriter.close', 'VbsReader.__next__'],
+            'Blocked': ['Block1014F_write', 'Block1014F_finalise', 'Block1014F_seek', 'VbsWriterB_write', 'VbsWriterB_close',
+                        'VbsReaderB_next', 'Unblock1014.read']},
     'C06': {'IpmRoundTrip': ['IpmWriter.write', 'IpmWriter.write_many', 'IpmReader.__next__', 'VbsWriter.write',
-                             'VbsWriter.close', 'VbsReader.__next__']},
+                             'VbsWriter.close', 'VbsReader.__next__'],
+            'IpmBlocked': ['IpmWriterB_write', 'IpmReaderB_next', 'VbsWriterB_write', 'VbsWriterB_close', 'VbsReaderB_next',
+                           'Block1014F_write', 'Block1014F_seek', 'Unblock1014.read']},
     'C11': {'Writer': ['VbsWriter.write', 'VbsWriter.close', 'VbsWriter.__exit__']},
     'C09': {'Reader': ['VbsReader.__next__']},
     'C10': {'Reader': ['VbsReader.__next__'], 'IpmReader': ['IpmReader.__next__', 'VbsReader.__next__']},
@@ -473,7 +477,7 @@ def _worker(args):
             res['stats'][k] = res['stats'].get(k, 0) + 1
         if r.get('violation'):
             res['violations'].append({'case': case, 'observed': r.get('obs'), 'why': r['violation'],
-                                      'finding': r.get('finding')})
+                                      'finding': r.get('finding'), 'module': mod_name})
         if use_model and lines[i] is not None:
             m = model.get(i, [])
             m = m[0] if isinstance(lines[i], str) else m
@@ -482,7 +486,7 @@ def _worker(args):
             exp = r.get('obs')
             if m != exp:
                 res['mismatch'].append({'case': case, 'implementation': exp, 'model': m,
-                                        'request': lines[i]})
+                                        'request': lines[i], 'module': mod_name})
         if i in line_errors:
             res['mismatch'].append({'case': case, 'implementation': r.get('obs'),
                                     'model': 'n/a (building the model request needed the implementation, which raised '
